@@ -117,7 +117,9 @@ func coqRecs(bd *lib.Binder, rs []jrec) string {
 	return "[" + strings.Join(ss, "; ") + "]"
 }
 
-func sameRec(m storage.LogMessage, r jrec) bool { return m.EntryType == r.T && bytes.Equal(m.Data, r.D) }
+func sameRec(m storage.LogMessage, r jrec) bool {
+	return m.EntryType == r.T && bytes.Equal(m.Data, r.D)
+}
 
 // compress an observation against the records of the log (see Model/C04Run.v)
 // i > 0: print a padded record relative to the segment start (Model/C04Run.v shift)
